@@ -53,10 +53,7 @@ def embed_pol(eng, selfv, args, kwargs, st, node):
     return [(st, g)]
 
 
-def counter_pol(eng, selfv, args, kwargs, st, node):
-    n = eng.fresh('count', z3.IntSort())
-    st.pc.append(n >= 0)
-    return [(st, V('seq', extra={'len': n, 'get': (lambda eng, i, st_: vint(i))}))]
+from vf.contracts.seq_common import counter_pol, counts, COUNT
 
 
 def since(trace, ordinal):
@@ -94,10 +91,20 @@ def quiet_end(c):
 
 common = dict(hooks={'getattr': h_getattr}, opts={'generator_trace': True}, native=False)
 
+
+def times(count):
+    """the loop makes exactly count(c) passes (none for a negative count), pass k carrying k"""
+    def over(c, sq, k, elem):
+        n = count(c)
+        if elem.k != 'int':
+            return z3.BoolVal(False), z3.BoolVal(False)
+        return sq.extra['len'] == z3.If(n > 0, n, 0), elem.z == k
+    return over
+
 # ---- Pn ---------------------------------------------------------------------------------
 def pn_pass(c, L):
     ev = events(c, 0)
-    if not ev:
+    if ev is None:
         return z3.BoolVal(True)
     if len(ev) != 2 or ev[0][0] != 'embed' or ev[1][0] != 'yield-from':
         return z3.BoolVal(False)
@@ -111,7 +118,8 @@ def pn_pass(c, L):
 contract(F, 'Pn.__embed__', props=('C13',), params={'self': 'self', 'inevent': 'obj'},
          ensures=[('returns-the-threaded-input-value', lambda c: z3.BoolVal(c.resultv is c.st.env['inevent']))],
          fields={'Pn': {'pattern': 'obj', 'key': 'none', 'repeats': 'obj'}},
-         loops={0: Loop(inv=pn_pass, kinds={'inevent': 'obj', '_': 'int'}, havoc_hook=remember('inevent'))},
+         loops={0: Loop(inv=pn_pass, over=counts('repeats'), kinds={'inevent': 'obj', '_': 'int'},
+                        havoc_hook=remember('inevent'))},
          policies={'sc3/base/stream.py::embed': embed_pol, 'counter': counter_pol},
          class_modules={'Pn': F}, note='key None (the variant with a key writes into the event: bounded only)',
          **common)
@@ -153,7 +161,8 @@ _pn_no_key = REGISTRY.pop('%s::Pn.__embed__' % F)
 contract(F, 'Pn.__embed__', props=('C13',), params={'self': 'self', 'inevent': 'obj'},
          ensures=[('event-unmarked-at-the-end-and-returned', pnk_post)],
          fields={'Pn': {'pattern': 'obj', 'key': 'obj', 'repeats': 'obj'}},
-         loops={1: Loop(inv=pnk_pass, kinds={'inevent': 'obj', '_': 'int'}, havoc_hook=remember('inevent'))},
+         loops={1: Loop(inv=pnk_pass, over=counts('repeats'), kinds={'inevent': 'obj', '_': 'int'},
+                        havoc_hook=remember('inevent'))},
          policies={'sc3/base/stream.py::embed': embed_pol, 'counter': counter_pol},
          class_modules={'Pn': F}, hooks={'getattr': h_getattr, 'setitem': pnk_setitem},
          opts={'generator_trace': True}, native=False, note='the variant with a key')
@@ -166,7 +175,7 @@ REGISTRY['%s::Pn.__embed__' % F] = _pn_no_key
 # ---- Plen -------------------------------------------------------------------------------
 def plen_pass(c, L):
     ev = events(c, 0)
-    if not ev:
+    if ev is None:
         return z3.BoolVal(True)
     if len(ev) != 2 or ev[0][0] != 'draw' or ev[1][0] != 'yield':
         return z3.BoolVal(False)
@@ -178,7 +187,8 @@ def plen_pass(c, L):
 contract(F, 'Plen.__embed__', props=('C13',), params={'self': 'self', 'inval': 'obj'},
          ensures=[('ends-quietly-when-the-source-ends', quiet_end)],
          fields={'Plen': {'pattern': 'obj', 'n': 'int'}},
-         loops={0: Loop(inv=plen_pass, kinds={'inval': 'obj', '_': 'int'}, havoc_hook=remember('inval'))},
+         loops={0: Loop(inv=plen_pass, over=times(lambda c: c.pre.self.n), kinds={'inval': 'obj', '_': 'int'},
+                        havoc_hook=remember('inval'))},
          policies={'sc3/base/stream.py::stream': make_stream('any')},
          class_modules={'Plen': F}, **common)
 
@@ -194,7 +204,7 @@ def roundup_pol(eng, selfv, args, kwargs, st, node):
 def pconst_pass(c, L):
     """continuing pass: one draw, the drawn value is yielded and the running sum grows by it"""
     ev = events(c, 0)
-    if not ev:
+    if ev is None:
         return z3.BoolVal(True)
     if len(ev) != 2 or ev[0][0] != 'draw' or ev[1][0] != 'yield':
         return z3.BoolVal(False)
@@ -258,7 +268,7 @@ def stutter_outer(c, L):
 
 def stutter_inner(c, L):
     ev = events(c, 1)
-    if not ev:
+    if ev is None:
         return z3.BoolVal(True)
     if len(ev) != 1 or ev[0][0] != 'yield':
         return z3.BoolVal(False)
@@ -275,7 +285,8 @@ contract(F, 'Pstutter.__embed__', props=('C13',), params={'self': 'self', 'inval
          ensures=[('ends-quietly-when-a-source-ends', quiet_end)],
          fields={'Pstutter': {'pattern': 'obj', 'n': 'obj'}},
          loops={0: Loop(inv=stutter_outer, kinds={'inval': 'obj', 'value': 'any', 'n': 'int', '_': 'int'}),
-                1: Loop(inv=stutter_inner, kinds={'inval': 'obj', '_': 'int'})},
+                1: Loop(inv=stutter_inner, over=times(lambda c: z3.If(c.st.env['n'].z >= 0, c.st.env['n'].z, -c.st.env['n'].z)),
+                        kinds={'inval': 'obj', '_': 'int'})},
          policies={'sc3/base/stream.py::stream': make_stream(stream_kind)},
          class_modules={'Pstutter': F}, hooks={'getattr': h_getattr, 'ext': h_ext},
          opts={'generator_trace': True}, native=False)
@@ -307,7 +318,7 @@ def fcompare(eng, op, a, b, st, node):
 def func_pass(mode):
     def inv(c, L):
         ev = events(c, 0)
-        if not ev:
+        if ev is None:
             return z3.BoolVal(True)
         ev = [e for e in since(c.trace, 0) if e[0] in ('draw', 'apply', 'yield', 'exhausted')]
         head_inval = c.st.ghost.get('inval_at_head')
@@ -443,7 +454,7 @@ contract(F, 'Pclump.__embed__', props=('C13',), params={'self': 'self', 'inval':
          ensures=[('remainder-of-the-last-pass-yielded-iff-non-empty,no-earlier-list-again', pc_post)],
          fields={'Pclump': {'pattern': 'obj', 'n': 'obj'}, 'Buf': {}},
          loops={0: Loop(inv=pc_outer, kinds={'inval': 'obj', 'lst': buf_kind, 'n': 'int', 'value': 'any', '_': 'int'}),
-                1: Loop(inv=pc_inner, kinds={'value': 'any', '_': 'int'})},
+                1: Loop(inv=pc_inner, over=times(lambda c: c.st.env['n'].z), kinds={'value': 'any', '_': 'int'})},
          policies={'sc3/base/stream.py::stream': make_stream(stream_kind)},
          hooks={'getattr': pc_getattr, 'new_list': pc_new_list}, class_modules={'Pclump': F, 'Buf': F},
          opts={'generator_trace': True}, native=False)
